@@ -31,8 +31,8 @@ func init() {
 				n = 60000
 			}
 			return fw.Meta{N: n, Level: "exploration", Chunk: 50, CaseTimeoutS: 120, MinNT: 300,
-				Rule:        "seeded writer programs (Write/WriteSync/Seek back to an earlier record boundary/rejected Seek into the header or past the size/Close) over nil, empty, random, compressible and marker-laden records with sizes around buffer, page and 4 KiB-window boundaries x 4 compression types x write buffers {8,13,64,4096,64Ki,default} x buffered/direct-I/O writer; then (a) sequential reader programs mixing ReadNext and SkipNext with read buffers {1,3,16,37,4096,64Ki,4Mi} (every other second program over a file on disk through the direct-I/O reader factory, block-multiple buffers), both calls must report EOF at the end (also behind the zero padding of direct-I/O files), (b) ReadNextAt at every returned offset, (c) SeekNext from every byte offset 0..size (files <= 8 KiB; record starts +-2 and window boundaries beyond). Non-trivial: >=3 surviving records incl. a nil or marker-ending one and >=1 skip; distinct by hash of program+config. Payloads embedding a complete valid record image are not generated (format cannot distinguish them)",
-				MinObs:      map[string]int64{"seeknext_offsets_checked": 100000, "skips_checked": 1000, "nil_records_skipped": 50, "seek_back_programs": 100, "rejected_seeks": 100, "readat_checked": 5000, "directio_files": 10, "directio_reader_runs": 30, "records_ending_in_marker_prefix": 200},
+				Rule:        "seeded writer programs (Write/WriteSync/Seek back to an earlier record boundary/rejected Seek into the header or past the size/Close) over nil, empty, random, compressible and marker-laden records with sizes around buffer, page and 4 KiB-window boundaries (every 100th program also around 512 KiB and 1 MiB) x 4 compression types x write buffers {8,13,64,4096,64Ki,default} x buffered/direct-I/O writer; then (a) sequential reader programs mixing ReadNext and SkipNext with read buffers {1,3,16,37,4096,64Ki,4Mi} (every other second program over a file on disk through the direct-I/O reader factory, block-multiple buffers), both calls must report EOF at the end (also behind the zero padding of direct-I/O files), (b) ReadNextAt at every returned offset, (c) SeekNext from every byte offset 0..size (files <= 8 KiB; record starts +-2 and window boundaries beyond). Non-trivial: >=3 surviving records incl. a nil or marker-ending one and >=1 skip; distinct by hash of program+config. Payloads embedding a complete valid record image are not generated (format cannot distinguish them)",
+				MinObs:      map[string]int64{"seeknext_offsets_checked": 100000, "skips_checked": 1000, "nil_records_skipped": 50, "seek_back_programs": 100, "rejected_seeks": 100, "readat_checked": 5000, "directio_files": 10, "records_of_half_a_mebibyte_or_more": 10, "directio_reader_runs": 30, "records_ending_in_marker_prefix": 200},
 				Assumptions: []string{"direct-I/O writer is used without Seek/WriteSync (documented limitation) and with block-multiple buffers"},
 			}
 		},
@@ -42,6 +42,18 @@ func init() {
 
 func c04Record(c *fw.Case, bufSize int) []byte {
 	r := c.R
+	// every 100th program may contain records around the sizes at which buffer pools and readers change their ways
+	// (512 KiB, 1 MiB): one in eight of its records is that large
+	if c.Idx%100 == 3 && r.Intn(8) == 0 {
+		n := gen.Pick(r, 512*1024, 1024*1024) + r.Intn(3) - 1 + r.Intn(2)*r.Intn(200000)
+		c.Obs("records_of_half_a_mebibyte_or_more", 1)
+		b := gen.Bytes(r, 4096)
+		p := make([]byte, 0, n)
+		for len(p) < n {
+			p = append(p, b...)
+		}
+		return p[:n]
+	}
 	switch r.Intn(12) {
 	case 0:
 		return nil
@@ -278,6 +290,9 @@ func c04Sequential(c *fw.Case, path string, model []c04rec, cfg, feat string, pr
 	rounds := 2
 	for round := 0; round < rounds; round++ {
 		rbuf := gen.Pick(r, 1, 3, 16, 37, 4096, 65536, 4*1024*1024)
+		if st, err := os.Stat(path); err == nil && st.Size() > 256*1024 && rbuf < 4096 {
+			rbuf = 4096 // (megabyte files are not read through 1..37 byte buffers: that is millions of system calls)
+		}
 		useDirectReader := round == 1 && r.Intn(2) == 0 && filepath.Dir(path) != c.Dir
 		ropts := []recordio.FileReaderOption{recordio.ReaderPath(path), recordio.ReaderBufferSizeBytes(rbuf)}
 		if useDirectReader {
